@@ -300,19 +300,6 @@ def python_containers(v, path="result"):
     return out
 
 
-F26 = {"function": "enumerate / groupBy", "value": "the Python lists they produce: enumerate's [index, element] pairs, groupBy's value lists"}
-
-
-def is_f26(stages, path, kind, v, whole):
-    """exactly: a 2-element list [int, x] made by enumerate, or the list that is the second component of a groupBy group"""
-    if kind != "list":
-        return False
-    names = [s[0] for s in stages]
-    if "enumerate" in names and len(v) == 2 and isinstance(v[0], int) and not isinstance(v[0], bool):
-        return True
-    return any(s[0] == "groupBy" for s in stages) and path.endswith("[1]")
-
-
 def evaluate_raw(text, data, conv="camel"):
     import signal
     old = signal.signal(signal.SIGALRM, sc._alarm)
@@ -353,7 +340,7 @@ def kinds_block(run, todo):
                      {"kind": "kinds", "yaql": text, "src": [src[0]] + [sc.tojson(x) for x in src[1:]], "stages": sc.stages_json(stages),
                       "literal": literal, "conv": conv, "where": path, "python_kind": kind, "value": repr(w), "raw_result": repr(v),
                       "required": "no Python list / dict / mutable set at any depth of a raw (yaql.convertOutputData=false) result",
-                      "finding_class": F26 if is_f26(stages, path, kind, w, v) else None, "theorems": ["C13_collection_kinds"]})
+                      "theorems": ["C13_collection_kinds"]})
             break
         if isinstance(v, tuple) and len(v) == 3 and v[0] == "set" and isinstance(v[1], bool):
             continue
@@ -413,10 +400,8 @@ def value_use_laws(run, extra=()):
             run.case(("value-use", text))
             run.count("value-use")
             if a != ("val", want):
-                known = name in ("enumerate", "groupBy")
                 law_fail(run, "value use (%s): a collection-valued result is a first-class yaql value - usable as element of distinct / toSet, "
-                              "as groupBy and dict key, and equal to its literal spelling" % name, text, tuple(data), "tuple", a, repr(want),
-                         {"finding_class": F26} if known else None)
+                              "as groupBy and dict key, and equal to its literal spelling" % name, text, tuple(data), "tuple", a, repr(want))
                 break
 
 
@@ -785,7 +770,7 @@ def replay(run, data):
         src, stages = src_from_json(d["src"]), sc.stages_from_json(d["stages"])
         before = len(run.failures)
         kinds_block(run, [(src, stages, d.get("literal", False), None, d.get("conv", "camel"))])
-        return not [f for f in run.failures[before:] if not classify(f, [{"class": F26, "line": "F26"}])]
+        return len(run.failures) == before
     if kind == "limit":
         n, src, stages = d["limit"], src_from_json(d["src"]), sc.stages_from_json(d["stages"])
         text0, data = sc.source_setup(src, False)
@@ -801,7 +786,7 @@ def replay(run, data):
     if kind == "law" and d.get("law", "").startswith("value use"):
         before = len(run.failures)
         value_use_laws(run)
-        return not [f for f in run.failures[before:] if not classify(f, [{"class": F26, "line": "F26"}])]
+        return len(run.failures) == before
     l = sc.fromjson(d["input"])
     before = len(run.failures)
     if kind == "law":
@@ -809,5 +794,5 @@ def replay(run, data):
     else:
         differential(run, [l])
     new = [f for f in run.failures[before:] if f.kind == "violation"]
-    known = [{"class": F18, "line": "F18"}, {"class": F26, "line": "F26"}]
+    known = [{"class": F18, "line": "F18"}]
     return not [f for f in new if not classify(f, known)]
